@@ -45,17 +45,19 @@ CLAIMED = {
         note="mult(u) counts knots within 1e-9 of u (so it is >= the exact count; equality holds for separated vectors: "
              "C03_mult_partial/C03_mult_refuted). GeneratorKnotVector.random is judged by prop_ok only."),
     "C04": dict(
-        text="Theorems (Props/C04.v): the new knot vector is sortq(old ++ nodes) - sorted, a permutation, per-value counts add up, "
-             "well-formed, multiplicities bounded; outside nodes -> ValueError; Boehm's identity for every degree and index with "
-             "exactly the coefficients of the model's insertion matrix (C04_boehm). That the curve is the same function of u is decided "
-             "for every generated case inside Coq by the exact function oracle (old and new curve compared through the Cox-de Boor "
-             "specification at p+1 (2p+1 for rational) distinct rational points of every span, every knot and both ends), for "
-             "polynomial and rational curves, zero nodes, repeated nodes, overflow and outside requests; state after a refused "
-             "request is compared with the state before.",
+        text="Unbounded theorems (Props/C04.v): Boehm's identity for every degree and index (induction on the degree); one "
+             "insertion step, the composed matrix of knot_insert (several nodes, repeated nodes, any multiplicities) and the "
+             "curve-level operation preserve the curve at EVERY u of the interval - C04_function_spline for polynomial curves of "
+             "any dimension, C04_function_rational for weighted curves (weights and weight-scaled points transformed), positive "
+             "weights stay positive; the new knot vector is sortq(old ++ nodes): sorted, a permutation, per-value counts add up, "
+             "well-formed; outside nodes -> ValueError. Tie: exact differential execution (model vs Curve.knot_insert) on "
+             "exhaustive shapes x node multisets incl. zero nodes, overflow, ends, outside, rational; every implementation result is "
+             "also compared with the old curve by the exact function oracle inside Coq; refused requests must leave the state unchanged.",
         design="7/C04",
-        technique="Coq proof (Boehm identity by induction on the degree; knot-vector algebra) + correspondence and exact function oracle by vm_compute",
-        note="The lift of Boehm's identity from basis functions to the model's composed matrices (for-all-u invariance of "
-             "c_knot_insert) is work in progress (Proofs/InsertSeq.v); until then that clause rests on the per-case oracle."),
+        technique="Coq proof (Boehm identity by induction on the degree, lifted to the model's matrices and curves) + correspondence and exact function oracle by vm_compute",
+        note="The function theorems carry the hypothesis that the degree is unchanged (kdeg c' = cdeg c), which excludes only "
+             "requests containing an end knot: the library re-infers the degree there and then refuses in apply (covered by the "
+             "correspondence and by C04_nonvacuous_refused)."),
     "C17": dict(
         text="Unbounded theorems (Props/C17.v), for all well-formed operands whose distinct knots are >= 1e-6 apart: U|V has "
              "degree max(p,q) and, for every value x, multiplicity max of the degree-lifted multiplicities (per-knot maximum at "
@@ -70,12 +72,14 @@ CLAIMED = {
              "vector carries both spline spaces (linear independence) is not formalised. Knots closer than 1e-6 are "
              "outside the hypothesis `separated` (known finding K2)."),
     "C18": dict(
-        text="Theorems (Props/C18.v): every generator result and every shift/scale/normalize result is a well-formed clamped "
-             "vector (random = for every drawn weight list), non-positive scale refused, and Cox-de Boor functions of every "
-             "degree and index are invariant under increasing affine reparametrisation (N_affine). Exact degree/npts, simple "
-             "interior knots, spacing, limits exactly [0,1], affine image of every knot, preserved multiplicities and basis/curve "
-             "invariance are decided inside Coq on every generated case against the implementation's outputs (Fraction class "
-             "checked); the float clause (limits exactly (0,1) for uniform/random with float knots) is validated by a sweep.",
+        text="Unbounded theorems (Props/C18.v): bezier/integer/uniform/weight/random (random = for every drawn positive weight "
+             "list) succeed exactly on valid requests and return well-formed vectors with exactly the requested degree and npts, "
+             "breakpoints 0,1,2,.. (integer), i/(n-p) (uniform), consecutive differences equal to the weights (weight), limits "
+             "exactly [0,1] (bezier, uniform, random); shift/scale/normalize always succeed on well-formed vectors (scale <= 0 "
+             "refused), map every knot affinely, keep degree, npts and every multiplicity, normalize lands on exactly [0,1]; "
+             "Cox-de Boor functions of every degree and index and curves are invariant under these reparametrisations "
+             "(kshift_basis, kscale_basis, knormalize_basis). Tie: differential execution of all generators and maps with "
+             "Fraction class checked; the float clause (limits exactly (0,1) with float knots) is validated by a sweep.",
         design="7/C18",
         technique="Coq proof (WF of generators and affine maps; affine invariance by induction on the degree) + correspondence by vm_compute",
         note="Float clause is a test (sweep over n and random draws), not a theorem. The draw of random() is not reproduced; "
